@@ -21,8 +21,16 @@ def mchr(c):
     return chr(PUA + o - SUR_LO) if SUR_LO <= o <= SUR_HI else c
 
 
+_CPS = {}
+
+
 def cps(s):
-    return ".".join(str(ord(mchr(c))) for c in s) if s else "-"
+    r = _CPS.get(s)
+    if r is None:
+        r = ".".join(str(ord(mchr(c))) for c in s) if s else "-"
+        if len(s) <= 24 and len(_CPS) < 200000:
+            _CPS[s] = r
+    return r
 
 
 def cls_char(c):
@@ -122,11 +130,18 @@ def info_wire(info, custom):
     hd = "%d%d" % (1 if info.dayfirst else 0, 1 if info.yearfirst else 0)
     if not custom:
         return "D" + hd
+    key = (type(info), hd)                   # the class attributes of a subclass are read once per (class, flags)
+    if key in _INFO_WIRE:
+        return _INFO_WIRE[key]
     def groups(xs):
         return ",".join("|".join(cps(w) for w in (g if isinstance(g, tuple) else (g,))) for g in xs)
     tzo = ",".join("%s=%d" % (cps(k), v) for k, v in info.TZOFFSET.items())
-    return ":".join(["X" + hd, groups(info.JUMP), groups(info.WEEKDAYS), groups(info.MONTHS), groups(info.HMS),
-                     groups(info.AMPM), groups(info.UTCZONE), groups(info.PERTAIN), tzo])
+    _INFO_WIRE[key] = ":".join(["X" + hd, groups(info.JUMP), groups(info.WEEKDAYS), groups(info.MONTHS), groups(info.HMS),
+                                groups(info.AMPM), groups(info.UTCZONE), groups(info.PERTAIN), tzo])
+    return _INFO_WIRE[key]
+
+
+_INFO_WIRE = {}
 
 
 def custom_infos():
@@ -258,6 +273,9 @@ def exc_kind(e):
         return "ParserError"
     if isinstance(e, decimal.InvalidOperation):
         return "InvalidOperation"
+    import calendar
+    if isinstance(e, calendar.IllegalMonthError):
+        return "ValueError"                     # a ValueError subclass (the models say ValueError for monthrange's complaint)
     return type(e).__name__
 
 
@@ -392,13 +410,11 @@ def model_answers(ctx, calls):
             if data[0] == "o":
                 k = int(data[1:]); z = tzobjs()[k]; lab = "obj %d" % k
             elif data[0] == "s":
-                s = "".join(chr(int(x)) for x in data[1:].split(".")) if data[1:] != "-" else ""
-                try:
-                    z = tz.tzstr(s)
-                except Exception as e:
-                    out[i] = "err " + exc_kind(e)       # tzstr's own ValueError: outside the model
-                    continue
-                lab = "str %s" % data[1:]
+                # a TZ string: the zone's names for the wall time come from the LEAN model of tz.tzstr (parser.assignstr:
+                # TzStr.tzstr + transitions), never from the implementation's object — the model answer is Lean's alone
+                second.append("parser.assignstr %s [%s] %s" % (data[1:], ",".join(str(x) for x in f), name))
+                where.append((i, head, "tzi", "str %s" % data[1:], toks))
+                continue
             else:
                 out[i] = "bad-model-zone " + r
                 continue
@@ -413,6 +429,9 @@ def model_answers(ctx, calls):
     if second:
         res = ctx.driver(second)
         for (i, head, kind, lab, toks), r in zip(where, res):
+            if r.startswith("err "):
+                out[i] = r                      # the zone object's exception at `tzname()` (a TZ string whose rule is bad)
+                continue
             if kind == "local":
                 z = r[3:]                       # "utc" | "local f"
                 if z.startswith("local "):
